@@ -14,6 +14,9 @@
 //!   `X<code>` peer closes the connection with an application code, `T` idle timeout, `I` transport internal error,
 //!   `G<n>` grant `n` more credits for opening uni streams, `H<n>` same for bidi streams,
 //!   `D:<hex>` a QUIC datagram with that payload arrives,
+//!   `<id>:Z<n>` the next n poll_finish calls on our send half of `<id>` return Pending; `ZS` / `ZU` make poll_finish report a
+//!   peer STOP_SENDING as StreamTerminated / as Unknown (default: poll_finish ignores it); `SEG<n>` hands every delivered
+//!   chunk to h3 as a non-contiguous `Buf` cut into n-byte segments (`RecvStream::Buf` is [`SegBuf`]),
 //!   `W<id>:<k>` let stream `<id>` accept `k` more bytes of writes (only meaningful when the world was created with a
 //!   finite default write budget), `W*:<k>` sets the default budget of streams opened later.
 //!   Terminal events (F, R, connection loss) are sticky.
@@ -89,6 +92,8 @@ pub struct StreamState {
     /// bytes of `tx` already moved to a linked peer
     pub pumped: usize,
     pub fin_pumped: bool,
+    /// `<id>:Z<n>`: the next n poll_finish calls on this stream return Pending (self-waking)
+    pub finish_pending: u64,
 }
 
 pub struct World {
@@ -114,6 +119,12 @@ pub struct World {
     pub dgram_tx: Vec<Vec<u8>>,
     /// None: datagrams accepted; Some(limit): larger ones are TooLarge; Some(0) means NotAvailable
     pub dgram_limit: Option<usize>,
+    /// `ZS`: poll_finish reports the peer's STOP_SENDING as StreamTerminated (default: ignores it)
+    pub finish_honours_stop: bool,
+    /// `ZU`: ... and reports it as StreamErrorIncoming::Unknown, as h3-quinn does for any finish() error
+    pub finish_stop_unknown: bool,
+    /// `SEG<n>`: every delivered chunk is handed to h3 as a NON-contiguous Buf cut into segments of n bytes (0 = one segment)
+    pub seg: usize,
 }
 
 pub type Shared = Arc<Mutex<World>>;
@@ -144,6 +155,9 @@ impl World {
             dgram_waker: None,
             dgram_tx: Vec::new(),
             dgram_limit: None,
+            finish_honours_stop: false,
+            finish_stop_unknown: false,
+            seg: 0,
         }))
     }
 
@@ -274,6 +288,18 @@ pub fn apply_event(w: &Shared, ev: &str) -> bool {
         g.lose(ConnLoss::Timeout);
         return true;
     }
+    if ev == "ZS" {
+        g.finish_honours_stop = true;
+        return true;
+    }
+    if ev == "ZU" {
+        g.finish_honours_stop = true;
+        g.finish_stop_unknown = true;
+        return true;
+    }
+    if let Some(r) = ev.strip_prefix("SEG") {
+        return num(r).map(|n| g.seg = n as usize).is_some();
+    }
     if ev == "I" {
         g.lose(ConnLoss::Internal);
         return true;
@@ -321,6 +347,7 @@ pub fn apply_event(w: &Shared, ev: &str) -> bool {
         }
         Some(x) if x.starts_with('R') => num(&x[1..]).map(|c| g.push(id, Ev::Reset(c))).is_some(),
         Some(x) if x.starts_with('S') => num(&x[1..]).map(|c| g.peer_stop(id, c)).is_some(),
+        Some(x) if x.starts_with('Z') => num(&x[1..]).map(|n| g.stream(id).finish_pending = n).is_some(),
         _ => false,
     }
 }
@@ -458,16 +485,59 @@ impl<B: Buf> quic::Connection<B> for SimConn {
     }
 }
 
+/// What SimQuic hands to h3 for one delivered chunk: one or several contiguous segments (`SEG<n>`).
+#[derive(Debug, Clone)]
+pub struct SegBuf {
+    segs: VecDeque<Bytes>,
+}
+
+impl SegBuf {
+    pub fn cut(b: Bytes, seg: usize) -> SegBuf {
+        let mut segs = VecDeque::new();
+        if seg == 0 || b.len() <= seg {
+            segs.push_back(b);
+        } else {
+            let mut rest = b;
+            while rest.len() > seg {
+                segs.push_back(rest.split_to(seg));
+            }
+            segs.push_back(rest);
+        }
+        SegBuf { segs }
+    }
+}
+
+impl Buf for SegBuf {
+    fn remaining(&self) -> usize {
+        self.segs.iter().map(|c| c.len()).sum()
+    }
+    fn chunk(&self) -> &[u8] {
+        self.segs.front().map(|c| &c[..]).unwrap_or(&[])
+    }
+    fn advance(&mut self, mut cnt: usize) {
+        while cnt > 0 {
+            let front = self.segs.front_mut().expect("advance past the end of SegBuf");
+            if cnt < front.len() {
+                Buf::advance(front, cnt);
+                return;
+            }
+            cnt -= front.len();
+            self.segs.pop_front();
+        }
+    }
+}
+
 impl quic::RecvStream for SimRecv {
-    type Buf = Bytes;
-    fn poll_data(&mut self, cx: &mut Context<'_>) -> Poll<Result<Option<Bytes>, StreamErrorIncoming>> {
+    type Buf = SegBuf;
+    fn poll_data(&mut self, cx: &mut Context<'_>) -> Poll<Result<Option<SegBuf>, StreamErrorIncoming>> {
         let mut g = self.world.lock().unwrap();
         let lost = g.conn_lost.clone();
+        let seg = g.seg;
         let s = g.stream(self.id);
         match s.rx.front().cloned() {
             Some(Ev::Chunk(b)) => {
                 s.rx.pop_front();
-                Poll::Ready(Ok(Some(b)))
+                Poll::Ready(Ok(Some(SegBuf::cut(b, seg))))
             }
             Some(Ev::Fin) => Poll::Ready(Ok(None)),
             Some(Ev::Reset(c)) => Poll::Ready(Err(StreamErrorIncoming::StreamTerminated { error_code: c })),
@@ -554,7 +624,7 @@ impl<B: Buf> quic::SendStream<B> for SimSend<B> {
         self.writing = Some(data.into());
         Ok(())
     }
-    fn poll_finish(&mut self, _cx: &mut Context<'_>) -> Poll<Result<(), StreamErrorIncoming>> {
+    fn poll_finish(&mut self, cx: &mut Context<'_>) -> Poll<Result<(), StreamErrorIncoming>> {
         let mut g = self.world.lock().unwrap();
         let lost = g.conn_lost.clone();
         if let Some(l) = lost {
@@ -562,7 +632,22 @@ impl<B: Buf> quic::SendStream<B> for SimSend<B> {
                 connection_error: l.to_incoming(),
             }));
         }
+        let (honour, unknown) = (g.finish_honours_stop, g.finish_stop_unknown);
         let s = g.stream(self.id);
+        if s.finish_pending > 0 {
+            s.finish_pending -= 1;
+            cx.waker().wake_by_ref();
+            return Poll::Pending;
+        }
+        if honour {
+            if let Some(c) = s.peer_stop {
+                return Poll::Ready(Err(if unknown {
+                    StreamErrorIncoming::Unknown("finish: stream stopped by peer".into())
+                } else {
+                    StreamErrorIncoming::StreamTerminated { error_code: c }
+                }));
+            }
+        }
         if !s.finished {
             s.finished = true;
             g.log.push(format!("fin {}", self.id));
@@ -616,8 +701,8 @@ impl<B: Buf> quic::SendStreamUnframed<B> for SimBidi<B> {
 }
 
 impl<B: Buf> quic::RecvStream for SimBidi<B> {
-    type Buf = Bytes;
-    fn poll_data(&mut self, cx: &mut Context<'_>) -> Poll<Result<Option<Bytes>, StreamErrorIncoming>> {
+    type Buf = SegBuf;
+    fn poll_data(&mut self, cx: &mut Context<'_>) -> Poll<Result<Option<SegBuf>, StreamErrorIncoming>> {
         self.recv.poll_data(cx)
     }
     fn stop_sending(&mut self, error_code: u64) {
